@@ -81,7 +81,8 @@ type User struct {
 	TagsOf   []Tag
 }
 
-func (u *User) Score(ctx context.Context, scale *float64, round *bool) (*float64, error) {
+// parameters in another order than the schema's score(scale, round)
+func (u *User) Score(ctx context.Context, round *bool, scale *float64) (*float64, error) {
 	return nil, nil
 }
 
@@ -129,6 +130,34 @@ type Tag struct {
 	Label string
 }
 
+// Calc: every field is a method, none declares its parameters in the order of the schema
+// arguments. Each result spells out which value arrived under which name.
+type Calc struct{}
+
+// no context, two parameters of the same type, swapped: span(from, to)
+func (Calc) Span(to int, from int) string { return fmt.Sprintf("from=%d to=%d", from, to) }
+
+// context, three parameters (two of the same type), reversed: label(prefix, width, suffix)
+func (c *Calc) Label(ctx context.Context, suffix string, width int, prefix string) (string, error) {
+	return fmt.Sprintf("prefix=%s width=%d suffix=%s", prefix, width, suffix), nil
+}
+
+// no context, two parameters of different types, swapped: scale(factor, round)
+func (c *Calc) Scale(round bool, factor float64) (string, error) {
+	return fmt.Sprintf("factor=%v round=%v", factor, round), nil
+}
+
+// context, two nullable parameters of the same type, swapped: window(lo, hi = 9)
+func (Calc) Window(ctx context.Context, hi *int, lo *int) string {
+	f := func(p *int) string {
+		if p == nil {
+			return "null"
+		}
+		return strconv.Itoa(*p)
+	}
+	return "lo=" + f(lo) + " hi=" + f(hi)
+}
+
 func (Tag) IsThing() {}
 
 type Limits struct {
@@ -166,4 +195,90 @@ type NewUser struct {
 }
 `
 
-func handFiles() map[string]string { return map[string]string{"hand/models.go": handModels} }
+// handHarness is a tiny program in the scratch module that runs the generated server once: the
+// root resolver `calc` returns a hand.Calc (set through reflection so that it compiles whatever
+// the configuration makes of the resolver's result type), one query selects every method-bound
+// field with distinct argument values, and the raw response body is printed.
+const handHarness = `package main
+
+import (
+	"fmt"
+	"net/http/httptest"
+	"os"
+	"reflect"
+	"strings"
+
+	"github.com/99designs/gqlgen/graphql/handler"
+	"github.com/99designs/gqlgen/graphql/handler/transport"
+
+	"probe/graph"
+	"probe/hand"
+)
+
+func main() {
+	stub := &graph.Stub{}
+	f := reflect.ValueOf(&stub.QueryResolver).Elem().FieldByName("Calc")
+	if !f.IsValid() {
+		fmt.Println("HARNESS: Stub.QueryResolver has no Calc field")
+		os.Exit(3)
+	}
+	f.Set(reflect.MakeFunc(f.Type(), func([]reflect.Value) []reflect.Value {
+		v := reflect.ValueOf(&hand.Calc{})
+		if f.Type().Out(0).Kind() != reflect.Ptr {
+			v = v.Elem()
+		}
+		return []reflect.Value{v, reflect.Zero(f.Type().Out(1))}
+	}))
+	srv := handler.New(graph.NewExecutableSchema(graph.Config{Resolvers: stub}))
+	srv.AddTransport(transport.POST{})
+	req := httptest.NewRequest("POST", "/", strings.NewReader(os.Args[1]))
+	req.Header.Set("Content-Type", "application/json")
+	rec := httptest.NewRecorder()
+	srv.ServeHTTP(rec, req)
+	fmt.Print(rec.Body.String())
+}
+`
+
+// The one request of the harness and what the GraphQL semantics say the answer is (arguments
+// are matched by NAME; defaults apply to omitted arguments).
+const (
+	harnessRequest = `{"query":"{ calc { span(from: 1, to: 5) label(prefix: \"a\", width: 3, suffix: \"z\") scale(factor: 1.5, round: true) window(lo: 2) w2: window(hi: 4, lo: 7) } }"}`
+	harnessWant    = `{"data":{"calc":{"span":"from=1 to=5","label":"prefix=a width=3 suffix=z","scale":"factor=1.5 round=true","window":"lo=2 hi=9","w2":"lo=7 hi=4"}}}`
+)
+
+func handFiles() map[string]string {
+	return map[string]string{"hand/models.go": handModels, "cmd/harness/main.go": handHarness}
+}
+
+// methodorder small project: equal-typed parameters only.
+const methodOrderModels = `package hand
+
+import (
+	"context"
+	"fmt"
+	"strconv"
+)
+
+type Calc struct{}
+
+func (Calc) Span(to int, from int) string { return fmt.Sprintf("from=%d to=%d", from, to) }
+
+func (k *Calc) Join(ctx context.Context, c string, a string, b string) (string, error) {
+	return "a=" + a + " b=" + b + " c=" + c, nil
+}
+
+func (Calc) Window(hi *int, lo *int) string {
+	f := func(p *int) string {
+		if p == nil {
+			return "null"
+		}
+		return strconv.Itoa(*p)
+	}
+	return "lo=" + f(lo) + " hi=" + f(hi)
+}
+`
+
+const (
+	methodOrderRequest = `{"query":"{ calc { span(from: 1, to: 5) join(a: \"x\", b: \"y\", c: \"z\") window(lo: 2) w2: window(hi: 4, lo: 7) } }"}`
+	methodOrderWant    = `{"data":{"calc":{"span":"from=1 to=5","join":"a=x b=y c=z","window":"lo=2 hi=9","w2":"lo=7 hi=4"}}}`
+)
